@@ -377,6 +377,8 @@ def _param_subst(body, params, args, decls=None):
     for x in _walk(body):
         if x.get('k') == 'VarDecl' and x.get('loc'):
             locs[x['loc']] = _bloc(x['loc'], 100 + k)
+        elif x.get('k') == 'DeclRefExpr' and x.get('refk') == 'Binding' and x.get('dloc'):
+            locs[x['dloc']] = _bloc(x['dloc'], 100 + k)         # the names of a structured binding move with their declaration
 
     def fn(x):
         if x.get('k') == 'DeclRefExpr' and x.get('dloc') in m:
